@@ -139,6 +139,11 @@ func (x *Exec) canInline(fr *Frame, fn *ssa.Function) bool {
 	if p == nil || !strings.HasPrefix(p.Path(), repoModule) {
 		return false
 	}
+	// only callees of the package under verification are inlined; calls across
+	// packages need a contract (else they are treated as unknown calls)
+	if tp := pkgOf(x.top); tp != nil && tp.Path() != p.Path() {
+		return false
+	}
 	if fr.depth >= x.inlineDepth {
 		return false
 	}
